@@ -155,7 +155,15 @@ func operandParams(info *types.Info, lit *ast.FuncLit) (types.Object, types.Obje
 // produces code that does not always evaluate both operands (the cases of a
 // switch on Operate.Operator inside a GenerateCustom implementation).
 func (c *Ctx) lazyOperators() map[string]token.Pos {
+	res, _ := c.lazyOperatorsIn()
+	return res
+}
+
+// lazyOperatorsIn also returns the packages declaring such a custom generator:
+// only generators built in (or on top of) these packages can have it installed.
+func (c *Ctx) lazyOperatorsIn() (map[string]token.Pos, map[string]bool) {
 	res := map[string]token.Pos{}
+	declaring := map[string]bool{}
 	for _, pkg := range c.RepoPkgs {
 		info := pkg.TypesInfo
 		for _, f := range pkg.Syntax {
@@ -178,6 +186,7 @@ func (c *Ctx) lazyOperators() map[string]token.Pos {
 						for _, e := range cc.List {
 							if tv, ok := info.Types[e]; ok && tv.Value != nil && tv.Value.Kind() == constant.String {
 								res[constant.StringVal(tv.Value)] = e.Pos()
+								declaring[pkg.PkgPath] = true
 							}
 						}
 					}
@@ -186,7 +195,7 @@ func (c *Ctx) lazyOperators() map[string]token.Pos {
 			}
 		}
 	}
-	return res
+	return res, declaring
 }
 
 func ruleR024(pkgFilter func(*packages.Package) bool) func(c *Ctx) {
@@ -196,7 +205,7 @@ func ruleR024(pkgFilter func(*packages.Package) bool) func(c *Ctx) {
 			c.Undecided(strings.Join(a.missing, ","), token.NoPos, "anchors not found")
 			return
 		}
-		lazy := c.lazyOperators()
+		lazyAll, lazyPkgs := c.lazyOperatorsIn()
 		addOps := map[*types.Func]int{} // method -> index of the impl argument
 		for name, idx := range map[string]int{"AddOp": 2, "AddOpImpl": 2, "AddSimpleOp": 2, "AddOpPure": 2, "AddOpBehind": 3} {
 			if m := LookupMethod(a.fg, "FunctionGenerator", name); m != nil {
@@ -213,6 +222,17 @@ func ruleR024(pkgFilter func(*packages.Package) bool) func(c *Ctx) {
 			}
 			info := pkg.TypesInfo
 			for _, f := range pkg.Syntax {
+				// the custom generator can only be installed where its package is visible
+				lazy := map[string]token.Pos{}
+				usesLazy := lazyPkgs[pkg.PkgPath]
+				for _, imp := range f.Imports {
+					if lazyPkgs[strings.Trim(imp.Path.Value, "\"")] {
+						usesLazy = true
+					}
+				}
+				if usesLazy {
+					lazy = lazyAll
+				}
 				ast.Inspect(f, func(n ast.Node) bool {
 					call, ok := n.(*ast.CallExpr)
 					if !ok {
